@@ -5,7 +5,7 @@ import hashlib
 
 from .loop import SimLoop, SimDeadlock, SimStepLimit
 from .net import SimNet
-from .seams import DetRandom, Seams, SimClock, import_msmart, debug_choice, set_logging
+from .seams import DetRandom, Seams, SimClock, import_msmart, debug_choice, set_logging, eager_choice
 
 DEFAULT_EPOCH = (2024, 5, 17, 10, 20, 30, 123456)
 
@@ -33,6 +33,11 @@ class World:
         self.trace_log = None      # set to [] to keep a readable trace (replay / samples)
         self.net = SimNet(tracer=self._trace)
         self.loop = SimLoop(self.net, max_iterations=max_iterations)
+        # one run in eight uses the eager task factory (Python >= 3.12; what Home Assistant configures): a new task
+        # runs up to its first suspension inside create_task()
+        self.eager_tasks = eager_choice(seed) and hasattr(asyncio, "eager_task_factory")
+        if self.eager_tasks:
+            self.loop.set_task_factory(asyncio.eager_task_factory)
         y, mo, d, h, mi, s, us = epoch
         self.clock = SimClock(self.loop, _dt.datetime(y, mo, d, h, mi, s, us, tzinfo=_dt.timezone.utc))
         self.rnd = DetRandom(seed)
